@@ -615,7 +615,25 @@ func (c *diskCache) loadExistingFiles(maxSizeBytes int64, cc CacheConfig) error 
 	// file suddenly evicts thousands of old small files.
 	go c.lru.performQueuedEvictionsContinuously()
 
+	// The directory can hold several files for one key (an overwrite that
+	// was interrupted before the old version was removed, or a migrated
+	// file next to a new one). Only the most recently accessed one that
+	// fits is a candidate: remove the others up front, so that they don't
+	// push other entries out of the cache before being replaced.
+	newest := make(map[string]int, len(result.item))
 	for i := 0; i < len(result.item); i++ {
+		if roundUp4k(result.item[i].sizeOnDisk) <= maxSizeBytes {
+			newest[result.metadata[i].lookupKey] = i
+		}
+	}
+
+	for i := 0; i < len(result.item); i++ {
+		if j, found := newest[result.metadata[i].lookupKey]; found && j != i &&
+			roundUp4k(result.item[i].sizeOnDisk) <= maxSizeBytes {
+			c.removeFile(c.getElementPath(result.metadata[i].lookupKey, *result.item[i]))
+			continue
+		}
+
 		ok := c.lru.Add(result.metadata[i].lookupKey, *result.item[i])
 		if !ok {
 			err = os.Remove(c.getElementPath(result.metadata[i].lookupKey, *result.item[i]))
